@@ -20,12 +20,16 @@ type Ex struct {
 	Client   int    `json:"client"`    // status the client parsed (0 = no complete well-formed response)
 	Verdict  string `json:"verdict"`
 	Why      string `json:"why"`
+	Raw      []byte `json:"-"`      // every byte the client received for this exchange
+	RawEOF   bool   `json:"raw_eof"` // the client's stream ended with an orderly FIN while reading this reply
+	ErrHdr   string `json:"err_hdr"`
 }
 
 // ExObs is the observation of one case.
 type ExObs struct {
 	Name     string             `json:"name"`
 	Leaf     string             `json:"leaf"`
+	Class    string             `json:"class"`
 	Exs      []Ex               `json:"exs"`
 	Trace    []TraceEv          `json:"trace"`
 	Closed   bool               `json:"closed"`      // proxy closed the client connection after the last reply
@@ -56,6 +60,9 @@ func (o *ExObs) Coq() string {
 type ExCase struct {
 	Name string
 	Leaf string
+	// Class is the fault class of the property statement this case belongs to (C12): "connfail" (502),
+	// "tlsfail" (502), "timeout" (504), "rejected" (the upstream proxy's status), "other" (5xx), "" none.
+	Class string
 	Opt  Options
 	Run  func(e *Env)
 }
@@ -108,6 +115,8 @@ func (e *Env) Do(c net.Conn, req string, headOnly bool, ex *Ex) ClientObs {
 	}
 	co := ReadResponse(c, headOnly, 5*time.Second)
 	ex.Seen = true
+	ex.Raw, ex.RawEOF = co.Raw, co.End == "eof"
+	ex.ErrHdr, _ = co.P.Get("X-Forwarder-Error")
 	ex.Verdict, ex.Why = co.P.Verdict, co.P.Why
 	if co.P.Verdict == VComplete {
 		ex.Client = co.P.Status
@@ -136,7 +145,7 @@ func (e *Env) End(c net.Conn, co ClientObs) {
 
 // RunExchangeCase runs one case against a fresh proxy.
 func RunExchangeCase(cs ExCase) *ExObs {
-	o := &ExObs{Name: cs.Name, Leaf: cs.Leaf}
+	o := &ExObs{Name: cs.Name, Leaf: cs.Leaf, Class: cs.Class}
 	opt := cs.Opt
 	e := &Env{O: o}
 	defer func() {
